@@ -69,6 +69,9 @@ fn containers(seed: u64, tier: Tier) -> Vec<(String, Logical)> {
     out.push(mk("c12-concat-p3-b".into(), Packaging::Concat, 3, Comp::None, &mut k));
     out.push(mk("c12-concat-p4-c".into(), Packaging::Concat, 4, Comp::Lz4(3), &mut k));
     out.push(mk("c12-basic-one".into(), Packaging::BasicOne, 1, Comp::Zstd(3), &mut k));
+    // BasicCreator's other packagings: manifest + directory in a container, or a bare manifest
+    out.push(mk("c12-basic-two".into(), Packaging::BasicTwo, 1, Comp::None, &mut k));
+    out.push(mk("c12-basic-noconcat".into(), Packaging::BasicNoConcat, 1, Comp::Zstd(3), &mut k));
     // many listed packs (pack-info table longer than 55 slots)
     let many = if tier == Tier::Quick { 64 } else { 90 };
     out.push(mk(format!("c12-loose-p{many}"), Packaging::Loose, many, Comp::None, &mut k));
